@@ -1,5 +1,10 @@
 package main
 
-import "os"
+import (
+	"os"
+	"regexp"
+)
 
 func getenv(k string) string { return os.Getenv(k) }
+
+var reCreatedOn = regexp.MustCompile(`<li>Created on [^<]*</li>`)
